@@ -843,3 +843,13 @@ Proof.
   rewrite (clone_same_definition G next G' next' reg Hreg Hc).
   apply introspect_restrict. exact Hreg.
 Qed.
+
+(** an executable form of [builtin_targets_ok] *)
+Definition builtin_targets_ok_b (G : g_schema) : bool :=
+  forallb (fun t => negb (is_builtin_name (leaf_name t)) || existsb (N.eqb (leaf_target t)) (builtin_ids G)) (all_tys G).
+
+Lemma builtin_targets_ok_b_spec G : builtin_targets_ok_b G = true -> builtin_targets_ok G.
+Proof.
+  intros H t Ht Hb. unfold builtin_targets_ok_b in H. rewrite forallb_forall in H. specialize (H t Ht).
+  rewrite Hb in H. simpl in H. apply existsb_exists in H. destruct H as [x [Hx E]]. apply N.eqb_eq in E. subst. exact Hx.
+Qed.
